@@ -253,7 +253,7 @@ func c05r3(p *Prog, r *Reporter) {
 				continue
 			}
 			call := callOf(atom)
-			if call == nil || call.Common().StaticCallee() == nil || call.Common().StaticCallee().Name() != "Get" || len(call.Common().Args) != 2 {
+			if call == nil || call.Common().StaticCallee() == nil || cname(call.Common().StaticCallee()) != "Get" || len(call.Common().Args) != 2 {
 				continue
 			}
 			falseSucc := b.Succs[1-trueSucc]
@@ -265,6 +265,60 @@ func c05r3(p *Prog, r *Reporter) {
 				panicNotRel = true
 			} else if a, ok := recv.(*ssa.Alloc); ok && (a == maskCell || maskCell == nil && typeName(deref(a.Type())) == "Mask") {
 				panicNoComp = true
+			}
+		}
+		// the target may be computed by a helper the mover calls (a function returning an Entity that the mover stores into
+		// the target cell / passes on): the same four facts, in the helper's terms
+		for _, site := range callsIn(fn) {
+			h := site.Common().StaticCallee()
+			if h == nil || !p.isArche(h) || h == gem || h == foc || h.Blocks == nil {
+				continue
+			}
+			if h.Signature.Results().Len() != 1 || !isEntityType(h.Signature.Results().At(0).Type()) {
+				continue
+			}
+			// the helper must see the mover's mask: a *Mask argument
+			for _, b := range h.Blocks {
+				for _, ins := range b.Instrs {
+					// a value loaded from RelationTarget reaches a return
+					if u, ok := ins.(*ssa.UnOp); ok {
+						if _, fld, _, ok := loadedField(u); ok && fld == "RelationTarget" && reachesReturn(u) {
+							initFromOld = true
+						}
+					}
+					// zero entity returned / stored to the result cell inside a loop guarded by IsRelation
+					if ret, ok := ins.(*ssa.Return); ok && len(ret.Results) == 1 {
+						if c, ok := ret.Results[0].(*ssa.Const); ok && isEntityType(c.Type()) && inLoop(b) && guardedByIsRelation(p, b) {
+							resetUnderLoop = true
+						}
+					}
+					if st, ok := ins.(*ssa.Store); ok {
+						if c, ok := st.Val.(*ssa.Const); ok && isEntityType(c.Type()) && inLoop(b) && guardedByIsRelation(p, b) {
+							resetUnderLoop = true
+						}
+					}
+				}
+				atom, trueSucc, isIf := ifCond(b)
+				if !isIf {
+					continue
+				}
+				call := callOf(atom)
+				if call == nil || call.Common().StaticCallee() == nil || cname(call.Common().StaticCallee()) != "Get" || len(call.Common().Args) != 2 {
+					continue
+				}
+				if !p.panicOnly(b.Succs[1-trueSucc]) {
+					continue
+				}
+				recv := call.Common().Args[0]
+				if _, fld, _, ok := loadedField(recv); ok && fld == "IsRelation" {
+					panicNotRel = true
+				} else if pr, ok := recv.(*ssa.Parameter); ok && typeName(deref(pr.Type())) == "Mask" {
+					// the argument for that parameter is the mover's result mask
+					arg := site.Common().Args[paramIndex(pr)]
+					if al, ok := arg.(*ssa.Alloc); ok && (al == maskCell || maskCell == nil) {
+						panicNoComp = true
+					}
+				}
 			}
 		}
 		pos := p.FnPos(fn)
@@ -330,7 +384,7 @@ func guardedByIsRelation(p *Prog, b *ssa.BasicBlock) bool {
 		return false
 	}
 	call := callOf(atom)
-	if call == nil || call.Common().StaticCallee() == nil || call.Common().StaticCallee().Name() != "Get" {
+	if call == nil || call.Common().StaticCallee() == nil || cname(call.Common().StaticCallee()) != "Get" {
 		return false
 	}
 	_, fld, _, ok := loadedField(call.Common().Args[0])
@@ -565,7 +619,7 @@ func directWritesAndMaskSets(p *Prog, ins ssa.Instruction) []string {
 		out = append(out, w.Path)
 	}
 	if site, ok := ins.(ssa.CallInstruction); ok {
-		if sc := site.Common().StaticCallee(); sc != nil && typeName(recvType(sc)) == "Mask" && (sc.Name() == "Set" || sc.Name() == "Reset") {
+		if sc := site.Common().StaticCallee(); sc != nil && typeName(recvType(sc)) == "Mask" && (cname(sc) == "Set" || cname(sc) == "Reset") {
 			if pa, _, fresh, ok := addrPath(site.Common().Args[0], 0); ok && !fresh {
 				out = append(out, pa)
 			}
@@ -620,7 +674,7 @@ func c05r8(p *Prog, r *Reporter) {
 			}
 			sc := call.Common().StaticCallee()
 			idx, isV := alive[sc]
-			if sc == nil || !isV || sc.Name() == "IsZero" || idx >= len(call.Common().Args) {
+			if sc == nil || !isV || cname(sc) == "IsZero" || idx >= len(call.Common().Args) {
 				continue
 			}
 			if !p.panicOnly(b.Succs[1-trueSucc]) {
@@ -826,7 +880,7 @@ func c05r9(p *Prog, r *Reporter) {
 			n++
 			arg := site.Common().Args[idx]
 			name := p.FuncName(fn)
-			construct := fmt.Sprintf("target passed to %s #%d", sc.Name(), n)
+			construct := fmt.Sprintf("target passed to %s #%d", cname(sc), n)
 			if isZeroEntity(arg) {
 				r.OK(name, construct, p.Pos(site.Pos()), "the zero entity")
 				continue
@@ -915,4 +969,36 @@ func c05r11(p *Prog, r *Reporter) {
 			}
 		}
 	}
+}
+
+// reachesReturn: the value flows (through phis, loads/stores of local cells) into a Return of its function.
+func reachesReturn(v ssa.Value) bool {
+	seen := map[ssa.Value]bool{}
+	var walk func(x ssa.Value) bool
+	walk = func(x ssa.Value) bool {
+		if seen[x] || x.Referrers() == nil {
+			return false
+		}
+		seen[x] = true
+		for _, ref := range *x.Referrers() {
+			switch y := ref.(type) {
+			case *ssa.Return:
+				return true
+			case *ssa.Phi:
+				if walk(y) {
+					return true
+				}
+			case *ssa.Store:
+				if al, ok := y.Addr.(*ssa.Alloc); ok && y.Val == x {
+					for _, r2 := range *al.Referrers() {
+						if ld, ok := r2.(*ssa.UnOp); ok && walk(ld) {
+							return true
+						}
+					}
+				}
+			}
+		}
+		return false
+	}
+	return walk(v)
 }
